@@ -85,11 +85,14 @@ def run_tlc(module, cfg, workdir, env=None, workers=8, heap="6g", timeout=3600, 
                 printed.append(json.loads(json.loads(line)))
             except Exception:
                 pass
+    actions = {}
+    for am in re.finditer(r"^<(\w+) line \d+, col \d+ to line \d+, col \d+ of module (\w+)>: (\d+):(\d+)", out, re.M):
+        actions[am.group(1)] = actions.get(am.group(1), 0) + int(am.group(4))
     m = re.search(r"(\d+) states generated, (\d+) distinct states found", out)
     states = int(m.group(1)) if m else 0
     distinct = int(m.group(2)) if m else 0
     res = dict(stdout=out, generated=states, distinct=distinct, printed=printed, rc=r.returncode,
-               wall=time.time() - t0)
+               wall=time.time() - t0, actions=actions)
     return res
 
 
